@@ -4,6 +4,7 @@ package checks
 var Registry = map[string]func(tier string){
 	"C01": C01,
 	"C16": C16,
+	"C19": C19,
 	"C18": C18,
 	"C12": C12,
 	"C20": C20,
